@@ -169,6 +169,32 @@ def main(tier):
                 t = ln.split()
                 run.violation("vm-modes:kept-bound-changed-by-a-later-run", {"cfg": t[1], "first": unhx(t[3]).decode(), "second": unhx(t[4]).decode(),
                                                                               "kept_before": unhx(m.group(1)).decode(), "kept_after": unhx(m.group(2)).decode()})
+        # the range query as hosts make it: min mode, max mode and a normal roll one after the other on ONE context (flipping the two
+        # switches), also with a default-sides expression that itself rolls — each answer is the one a fresh context in that mode gives
+        ml, mmeta = [], []
+        for i in range(60 if tier == "thorough" else 24):
+            dexpr = r.choice(("2d4+2", "d6+1", "3d2", "20", "d10"))
+            body = r.choice(("3d", "d + 2d", "2d + 5", "4dk2", "d * 2", "2d6 + d", "d", "3dkl1 + 1"))
+            st = f"{r.getrandbits(128):032x}"
+            cfgd = "D" + hx(dexpr)
+            ml.append(f"modeseq {cfgd},L30000 {st} {hx(body)}")
+            for md in ("m", "M", ""):
+                ml.append(f"runseq {cfgd}{',' + md if md else ''},L30000 {st} {hx(body)}")
+            mmeta.append((dexpr, body, st))
+        mo_ = run.go_only("mode-sequence", ml, go_timeout=60)
+        for i, (dexpr, body, st) in enumerate(mmeta):
+            g = mo_[4 * i][1]
+            fresh = [re.match(r"ok (\S+) ", mo_[4 * i + j][1]) for j in (1, 2, 3)]
+            mm = re.match(r"min=(\S+) max=(\S+) rnd=(\S+)$", g)
+            rep = {"DefaultDiceSideExpr": dexpr, "source": body, "seed": st, "one_context_min_max_random": g[:300], "fresh_contexts": [x[1][:120] for x in mo_[4 * i + 1:4 * i + 4]]}
+            if not mm or not all(fresh):
+                run.violation("mode-sequence:not-ok", rep)
+                continue
+            run.nontriv(("modeseq", dexpr, body, st))
+            if [mm.group(1), mm.group(2), mm.group(3)] != [f.group(1) for f in fresh]:
+                run.violation("mode-sequence:answer-depends-on-the-earlier-mode-run", rep)
+            elif not (int(mm.group(1)[1:]) <= int(mm.group(3)[1:]) <= int(mm.group(2)[1:])):
+                run.violation("mode-sequence:not-bracketed", rep)
         # documented size limit: one directed probe
         out = run.go_only("vm-limit", [f"runseq {m},L30000 {r.getrandbits(128):032x} {hx('d9223372036854775807')}" for m in ("m", "-", "M")])
         ms = [re.match(r"ok i(-?\d+) ", x[1]) for x in out]
